@@ -424,7 +424,7 @@ Proof.
     + intros sv' Hsv'. apply cln_maybe_delete_session. cl_pure.
   - destruct (update_last_cmid _ _ _ _ sv) as [sv1|] eqn:Hu; [|exact Hsv].
     split; [exact (cln_update_last_cmid _ _ _ _ _ _ Hsv Hu)|constructor].
-  - destruct parsed as [g|]; (split; [|constructor]); [|exact Hsv]. cl_hyps. unfold CleanState. cl_pure.
+  - destruct (config_in_force _ _ _) as [g|] eqn:Hcf; (split; [|constructor]); [|exact Hsv]. apply config_in_force_Some in Hcf. rewrite Hcf in Hen. cl_hyps. unfold CleanState. cl_pure.
 Qed.
 
 (* ---- histories -------------------------------------------------------------------------------------------- *)
